@@ -8,7 +8,46 @@ import (
 	"strconv"
 	"sync"
 	"time"
+	"unsafe"
 )
+
+// Goroutine-local identity without a traceback per yield: the runtime keeps
+// one pointer per goroutine for profiler labels, inherited by goroutines it
+// starts. runtime/pprof reaches it through these two functions, which the
+// runtime keeps linkname-accessible. The CLI does not use profiler labels.
+//
+//go:linkname runtime_getProfLabel runtime/pprof.runtime_getProfLabel
+func runtime_getProfLabel() unsafe.Pointer
+
+//go:linkname runtime_setProfLabel runtime/pprof.runtime_setProfLabel
+func runtime_setProfLabel(labels unsafe.Pointer)
+
+type plabel struct {
+	task     *ptask
+	pending  *ptask // a goroutine announced by Spawn that has not identified itself yet
+	ownerGid uint64 // the goroutine that announced it
+}
+
+// me returns the calling goroutine's task (nil for goroutines the scheduler
+// does not track). The slow goroutine-id lookup runs only right after a spawn.
+func me() *ptask {
+	l := (*plabel)(runtime_getProfLabel())
+	if l == nil {
+		return nil
+	}
+	if l.pending == nil {
+		return l.task
+	}
+	g := curGid()
+	if g == l.ownerGid {
+		runtime_setProfLabel(unsafe.Pointer(&plabel{task: l.task}))
+		return l.task
+	}
+	t := l.pending
+	t.gid = g
+	runtime_setProfLabel(unsafe.Pointer(&plabel{task: t}))
+	return t
+}
 
 // Scheduler P: every goroutine that enters instrumented code registers as a
 // task, parks at every yield on its own channel and is released one at a time.
@@ -76,6 +115,9 @@ var p struct {
 	changeAt []int
 	victim   int
 	last     int
+	rel      *ptask // the task released for the current step
+	relPrev  int    // the site it was released from
+	forceDump bool  // look at every blocked task's wait reason, whatever the last step was
 }
 
 func curGid() uint64 {
@@ -93,28 +135,35 @@ func curGid() uint64 {
 }
 
 // Spawn announces that the next statement starts a goroutine (inserted by the
-// instrumenter before every go statement).
+// instrumenter before every go statement). The new goroutine inherits the
+// label set here and adopts the pending task at its first Enter.
 func Spawn() {
 	if mode != ModeP {
 		return
 	}
+	cur := me()
 	p.mu.Lock()
 	p.expected++
 	p.mu.Unlock()
+	child := &ptask{id: -1, state: stAtYield, site: -1, ch: make(chan struct{})}
+	runtime_setProfLabel(unsafe.Pointer(&plabel{task: cur, pending: child, ownerGid: curGid()}))
 }
 
 func enterP() {
-	g := curGid()
-	p.mu.Lock()
-	t := p.byGid[g]
+	t := me()
 	if t == nil {
-		t = &ptask{id: len(p.tasks), gid: g, state: stAtYield, site: -1, ch: make(chan struct{})}
+		return
+	}
+	p.mu.Lock()
+	if t.id < 0 {
+		// first time in instrumented code: register and park until released
+		t.id = len(p.tasks)
 		t.rng = p.cfg.LightSeed ^ (uint64(t.id+1) * 0x9e3779b97f4a7c15)
 		p.tasks = append(p.tasks, t)
-		p.byGid[g] = t
+		p.byGid[t.gid] = t
 		t.depth = 1
 		p.mu.Unlock()
-		<-t.ch // park until first released
+		<-t.ch
 		return
 	}
 	t.depth++
@@ -122,9 +171,8 @@ func enterP() {
 }
 
 func leaveP() {
-	g := curGid()
+	t := me()
 	p.mu.Lock()
-	t := p.byGid[g]
 	if t != nil {
 		t.depth--
 		if t.depth == 0 {
@@ -136,14 +184,16 @@ func leaveP() {
 
 var heavySite []bool
 
+func lightSite(site int) bool { return site >= 0 && site < len(heavySite) && !heavySite[site] }
+
+func quietSite(site int) bool { return site >= 0 && site < len(SyncSite) && !SyncSite[site] }
+
 func yieldP(site int) {
-	g := curGid()
-	p.mu.Lock()
-	t := p.byGid[g]
+	t := me()
 	if t == nil {
-		p.mu.Unlock()
 		return
 	}
+	p.mu.Lock()
 	if site >= 0 && site < len(heavySite) && !heavySite[site] {
 		if p.cfg.LightDiv <= 0 {
 			p.mu.Unlock()
@@ -241,6 +291,11 @@ func settle() bool {
 			continue
 		}
 		if moving == 0 && !needDump {
+			return true
+		}
+		if moving == 0 && !p.forceDump && p.rel != nil && p.rel.state == stAtYield && quietSite(p.relPrev) {
+			// the statement just executed contains no synchronisation construct and
+			// its function defers nothing: it cannot have released a blocked task
 			return true
 		}
 		// some task is neither parked nor exited: blocked on a primitive, or still moving
@@ -363,7 +418,10 @@ func RunP(mainFn func(), cfg PConfig) PResult {
 		heavySite[i] = len(s) >= 13 && s[:13] == "xsel/xsel.go:"
 	}
 	mode = ModeP
+	// task 0: the goroutine started next inherits this label and adopts the task
+	runtime_setProfLabel(unsafe.Pointer(&plabel{pending: &ptask{id: -1, state: stAtYield, site: -1, ch: make(chan struct{})}, ownerGid: curGid()}))
 	go mainFn()
+	runtime_setProfLabel(nil)
 	// start handshake: wait for task 0 to register
 	for {
 		runtime.Gosched()
@@ -401,10 +459,17 @@ func RunP(mainFn func(), cfg PConfig) PResult {
 			p.res.MaxParallel = live
 		}
 		if len(r) == 0 {
+			if !p.forceDump {
+				// before concluding: re-examine every blocked task's wait reason
+				p.forceDump = true
+				p.mu.Unlock()
+				continue
+			}
 			p.res.End = "deadlock"
 			p.mu.Unlock()
 			break
 		}
+		p.forceDump = false
 		if p.res.Steps >= p.cfg.MaxSteps {
 			p.res.End = "step-budget"
 			p.mu.Unlock()
@@ -421,6 +486,7 @@ func RunP(mainFn func(), cfg PConfig) PResult {
 			p.res.Trace = append(p.res.Trace, PStep{t.id, t.site})
 		}
 		t.state = stRunning
+		p.rel, p.relPrev = t, t.site
 		p.mu.Unlock()
 		t.ch <- struct{}{}
 	}
